@@ -2,7 +2,8 @@
 ID = 'C07'
 FUNCTIONS = [('devices', 'DM'), ('devices', 'FIBER'), ('typing', 'electrical_signal.__call__'), ('typing', 'electrical_signal.w'),
              ('typing', 'electrical_signal.__mul__')]
-BOUNDS = {'lengths': 'N in {2,3,4} (quick) / {2,3,4,5,6,8} (thorough), exact DFT; one and two polarisations',
+BOUNDS = {'call-history differential': 'for the blocks of this property registered in vf/history.py (concrete orders / bandwidths / gains / gv configurations, symbolic samples): the call repeated in a session that first ran it with one parameter or one gv setting changed equals the call in a fresh library instance',
+          'lengths': 'N in {2,3,4} (quick) / {2,3,4,5,6,8} (thorough), exact DFT; one and two polarisations',
           'lengths beyond the exact DFT': 'DM energy conservation and layout at N in {13, 16} (thorough: 13, 16, 17, 26, 32, 64): FFT pair in contract mode '
                                          '(fresh outputs + Parseval, each proved for the exact DFT in C02), per-bin unit-modulus lemma, scalar composition',
           'values': 'every complex field sample, D, D1, D2, beta_2, beta_3 (either sign), alpha >= 0, L, L1, L2 > 0 and the slot rate R symbolic'}
@@ -22,10 +23,13 @@ def _field(env, n, pol, name='E'):
     return T.optical_signal([list(r) for r in S]), S
 
 
-def _setup(env, sps=2):
+def _setup(env, sps=2, N=None):
     T = env.lib.typing
     Rr = env.real('R', 1e9, 1e11)
-    T.gv(sps=sps, R=Rr)
+    if N:
+        T.gv(sps=sps, R=Rr, N=N)         # a slot count in force: gv holds its own t / w grids of N*sps points
+    else:
+        T.gv(sps=sps, R=Rr)
     return Rr * sps
 
 
@@ -51,7 +55,7 @@ def _apply(env, rows, H):
 def scen_dm(env, cfg):
     D_ = env.lib.devices
     n, pol = cfg['n'], cfg['pol']
-    fs = _setup(env)
+    fs = _setup(env, cfg.get('sps', 2), cfg.get('N'))
     x, S = _field(env, n, pol)
     snap = env.snap(x.signal)
     D = env.real('D', -200, 200)
@@ -143,7 +147,7 @@ def scen_dm_compose(env, cfg):
 def scen_fiber_dm(env, cfg):
     D_ = env.lib.devices
     n, pol = cfg['n'], cfg['pol']
-    fs = _setup(env)
+    fs = _setup(env, cfg.get('sps', 2), cfg.get('N'))
     x, S = _field(env, n, pol)
     b2 = env.real('beta_2', -25, 25)
     L = env.real('L', 0.1, 100)
@@ -228,7 +232,13 @@ def configs(tier):
             out.append((f'fiber-vs-dm-n{n}-pol{pol}', scen_fiber_dm, dict(n=n, pol=pol), {}))
             if n != 5:       # the power clause over the degree-4 twiddle field of N = 5 exceeds the query budget (unknown after 180 s)
                 out.append((f'fiber-filter-n{n}-pol{pol}', scen_fiber_filter, dict(n=n, pol=pol, spans=(n <= 3 and pol == 1)), {}))
+    # the field's own frequency axis while gv holds a grid of the same length (odd and even) or of another length
+    for n, sps, N in (((3, 3, 1), (4, 2, 2), (3, 2, 2)) if q else ((3, 3, 1), (4, 2, 2), (3, 2, 2), (5, 5, 1), (6, 3, 2), (2, 2, 1))):
+        out.append((f'dm-n{n}-pol1-gv-sps{sps}-N{N}', scen_dm, dict(n=n, pol=1, sps=sps, N=N), {}))
+        out.append((f'fiber-vs-dm-n{n}-pol1-gv-sps{sps}-N{N}', scen_fiber_dm, dict(n=n, pol=1, sps=sps, N=N), {}))
     # record lengths beyond the exact-DFT bound (one with a prime factor >= 13, one power of two, one composite): contract-mode FFT
     for n, pol in (((13, 1), (16, 2)) if q else ((13, 1), (13, 2), (16, 2), (17, 1), (26, 1), (32, 1), (64, 1))):
         out.append((f'dm-energy-contract-n{n}-pol{pol}', scen_dm_energy, dict(n=n, pol=pol), {'validate': 1}))
+    from vf import history as _history        # call-history differential of this property's blocks (vf/history.py)
+    out += _history.configs_for('C07')
     return out
